@@ -123,6 +123,14 @@ type lcNet struct {
 	// inWrite, if set, is called when a request frame carrying that identifier is handed to Write (before any byte
 	// is passed on); the Write continues when it returns.
 	inWrite func(id string, c *lcConn)
+	// inDial, if set, is called when the dialer has been invoked (attempt index), before it connects
+	inDial func(idx int)
+}
+
+func (n *lcNet) setInDial(f func(idx int)) {
+	n.mu.Lock()
+	n.inDial = f
+	n.mu.Unlock()
 }
 
 func (n *lcNet) setInWrite(f func(id string, c *lcConn)) {
@@ -168,7 +176,11 @@ func (n *lcNet) dial(ctx context.Context) (net.Conn, error) {
 	n.mu.Unlock()
 	n.mu.Lock()
 	fs := append([]*lcFault(nil), n.faults...)
+	cb := n.inDial
 	n.mu.Unlock()
+	if cb != nil {
+		cb(idx)
+	}
 	for _, f := range fs {
 		if f.dir == 'd' && idx >= f.conn && idx <= f.conn+f.rep {
 			n.fire(f)
